@@ -538,12 +538,13 @@ func (trie *PatriciaTrie) put(curNode *PatriciaNode, key string, data types.Node
 				// split at j
 				childSub := substring(child.key, j, len(child.key))
 				sub := substring(key, j, len(key))
+				// The children slice must be copied. The old child is still used by other blocks' trie, and appending to a shared slice changes their children too
 				childNode := &PatriciaNode{ // c#
 					key:      childSub,
 					dye:      child.dye,
 					terminal: child.terminal,
 					data:     child.data,
-					children: child.children,
+					children: append([]*PatriciaNode(nil), child.children...),
 				}
 
 				node := &PatriciaNode{ // d#
